@@ -414,10 +414,12 @@ class Ctx:
             "known_findings_hit": sorted(seen_known.keys()),
         }
         if not self.replay:
-            os.makedirs(os.path.join(VERIF, "evidence"), exist_ok=True)
-            tmp = os.path.join(VERIF, "evidence", ".%s.json.tmp" % self.pid)
+            # extension checks (ids X..: behaviour beyond the listed properties) keep their evidence apart
+            evdir = os.path.join(VERIF, "extra", "evidence") if self.pid.startswith("X") else os.path.join(VERIF, "evidence")
+            os.makedirs(evdir, exist_ok=True)
+            tmp = os.path.join(evdir, ".%s.json.tmp" % self.pid)
             open(tmp, "w").write(json.dumps(ev, indent=1))
-            os.replace(tmp, os.path.join(VERIF, "evidence", "%s.json" % self.pid))
+            os.replace(tmp, os.path.join(evdir, "%s.json" % self.pid))
         for l in lines:
             print(l, flush=True)
         log("%s %s seed=%d: states=%d transitions=%d impl-validated=%d violations=%d known=%d wall=%.1fs" %
@@ -455,7 +457,7 @@ class Findings:
 
 
 def load_findings(pid):
-    p = os.path.join(VERIF, "known_findings.json")
+    p = os.path.join(VERIF, "extra", "findings.json") if pid.startswith("X") else os.path.join(VERIF, "known_findings.json")
     if not os.path.exists(p):
         return Findings([])
     data = json.load(open(p))
